@@ -331,9 +331,29 @@ func (c *Ctx) c19Rules() {
 			tally = call
 		}
 	}
+	// the classifier inlined into Errors (it hands its counts back in a struct
+	// and Errors calls the same helper the exported-by-name classifier wraps): the
+	// counters are the loop's phis, named by the struct's fields, and the loop is
+	// decided like the classifier's own
+	classIdx := map[string]int{"upper": 0, "lower": 1, "numeric": 2, "symbols": 3, "whitespace": 4}
+	inlined := map[*ssa.Phi]int{}
 	if tally == nil {
-		r.Bad("C19.rules", name, "tallyCharacters", "-", "character classes are not counted")
-		return
+		named := map[*ssa.Phi]string{}
+		for _, b := range e.Blocks {
+			for _, in := range b.Instrs {
+				if p, ok := in.(*ssa.Phi); ok {
+					if k, isClass := classIdx[p.Comment]; isClass && p.Type().String() == "int" {
+						inlined[p] = k
+						named[p] = p.Comment
+					}
+				}
+			}
+		}
+		if len(inlined) != 5 {
+			r.Bad("C19.rules", name, "tallyCharacters", "-", "character classes are not counted")
+			return
+		}
+		c.charClassesOf("C19.classes", e, named)
 	}
 	type row struct {
 		errFn string
@@ -347,8 +367,12 @@ func (c *Ctx) c19Rules() {
 		walk = func(v ssa.Value) {
 			switch x := v.(type) {
 			case *ssa.Extract:
-				if x.Tuple == tally.Value() {
+				if tally != nil && x.Tuple == tally.Value() {
 					out = append(out, x.Index)
+				}
+			case *ssa.Phi:
+				if k, ok := inlined[x]; ok {
+					out = append(out, k)
 				}
 			case *ssa.BinOp:
 				if x.Op == token.ADD {
